@@ -49,6 +49,40 @@ fn main() {
     match args[0].as_str() {
         "codec-worker" => props::c14::worker_main(),
         "codec-one" => props::c14::one_main(),
+        "debug" => {
+            // vcheck debug <replay-or-scenario.json> [substring filter for the packet trace]
+            let path = args.get(1).cloned().unwrap_or_else(|| usage());
+            let doc: serde_json::Value = serde_json::from_str(&std::fs::read_to_string(&path).expect("read")).expect("json");
+            let case = if doc.get("case").is_some() { doc["case"].clone() } else { doc };
+            let sc: sim::scenario::Scenario = serde_json::from_value(case).expect("scenario");
+            let mut o = sim::world::RunOpts::default();
+            o.log_net = true;
+            o.record_trace = true;
+            let out = sim::world::run(&sc, &o);
+            let filt = args.get(2).cloned();
+            for l in &out.net.trace {
+                if filt.as_ref().map(|f| l.contains(f.as_str())).unwrap_or(false) {
+                    println!("{l}");
+                }
+            }
+            for v in &out.viols {
+                println!("VIOL {:?}", v);
+            }
+            for (i, p) in out.peers.iter().enumerate() {
+                println!("peer{i}: frame {} conf {} cs {:?} stats {:?} stalls {}", p.current_frame, p.last_conf, p.cs, p.stats, p.stalls);
+                for e in &p.events {
+                    println!("   {} {:?}", e.0, e.1);
+                }
+                if std::env::var("VERIF_TRACE").is_ok() {
+                    for t in &p.trace {
+                        println!("   {t}");
+                    }
+                }
+            }
+            for (i, p) in out.specs.iter().enumerate() {
+                println!("spec{i}: frame {} waits {} too_far {} events {:?}", p.current_frame, p.waits, p.too_far, p.events);
+            }
+        }
         "list" => {
             for p in props::ALL {
                 println!("{p}");
